@@ -1561,3 +1561,70 @@ Section C07_awaiting.
     apply (par_reach s Hpar (length r1) (t :: r1) u r2 tku E Hgu Hds [] t r1 eq_refl (le_n _)).
   Qed.
 End C07_awaiting.
+
+(* ------------------------------------------------------------------ non-vacuity: a concrete run *)
+Definition c07_fin (o : outcome) : prog := match o with Ok v => Ret v | Err e => Raise e end.
+Definition c07_child : prog :=
+  Enter (COverride 1 0 (VInt 30))
+    (Yield (YLeaf (LNew (FItem 0 1 (ASet (VInt 5)))))
+       (fun o => Exit (COverride 1 0 (VInt 30)) (c07_fin o))).
+Definition c07_sibling : prog :=
+  Enter (CAsync 7 NoFault) (Enter (COverride 3 0 (VInt 40))
+    (Exit (COverride 3 0 (VInt 40)) (Exit (CAsync 7 NoFault) (Ret (VInt 1))))).
+Definition c07_demo : prog :=
+  Enter (COverride 1 0 (VInt 10)) (Enter (COverride 2 0 (VInt 20))
+    (Yield (YTuple [YLeaf (LNew (FTask c07_child)); YLeaf (LNew (FTask c07_sibling))])
+       (fun o => Exit (COverride 2 0 (VInt 20)) (Exit (COverride 1 0 (VInt 10)) (c07_fin o))))).
+
+Lemma c07_child_ok : tree c07_child /\ wn [] c07_child.
+Proof.
+  unfold c07_child. split.
+  - apply tree_enter; [reflexivity|]. apply tree_yield; [intros l [<-|[]]; repeat constructor|].
+    intros o. apply tree_exit; [reflexivity|]. destruct o; constructor.
+  - apply wn_enter; [intros []|]. cbn [app]. apply wn_yield; [intros q [E|[]]; discriminate|].
+    intros o. apply (wn_exit [] (COverride 1 0 (VInt 30))). destruct o; constructor.
+Qed.
+
+Lemma c07_sibling_ok : tree c07_sibling /\ wn [] c07_sibling.
+Proof.
+  unfold c07_sibling. split.
+  - repeat (first [apply tree_enter; [reflexivity|] | apply tree_exit; [reflexivity|]]). constructor.
+  - apply wn_enter; [intros []|]. cbn [app]. apply wn_enter; [cbn; intros [E|[]]; discriminate|]. cbn [app].
+    apply (wn_exit [CAsync 7 NoFault] (COverride 3 0 (VInt 40))). apply (wn_exit [] (CAsync 7 NoFault)). constructor.
+Qed.
+
+Lemma c07_demo_ok : tree c07_demo /\ wn [] c07_demo.
+Proof.
+  unfold c07_demo. split.
+  - apply tree_enter; [reflexivity|]. apply tree_enter; [reflexivity|]. apply tree_yield.
+    + intros l Hl. cbn in Hl. destruct Hl as [<-|[<-|[]]]; constructor; constructor; [apply c07_child_ok|apply c07_sibling_ok].
+    + intros o. apply tree_exit; [reflexivity|]. apply tree_exit; [reflexivity|]. destruct o; constructor.
+  - apply wn_enter; [intros []|]. cbn [app]. apply wn_enter; [cbn; intros [E|[]]; discriminate|]. cbn [app]. apply wn_yield.
+    + intros q Hq. cbn in Hq. destruct Hq as [E|[E|[]]]; inversion E; subst; [apply c07_child_ok|apply c07_sibling_ok].
+    + intros o. apply (wn_exit [COverride 1 0 (VInt 10)] (COverride 2 0 (VInt 20))).
+      apply (wn_exit [] (COverride 1 0 (VInt 10))). destruct o; constructor.
+Qed.
+
+Lemma c07_demo_runs :
+  let P := mkP [] 1000 false [] in
+  let h := fst (create [] (FTask c07_demo) (st0 P)) in
+  let s1 := snd (create [] (FTask c07_demo) (st0 P)) in
+  let st_at k := c_st (run P k (start h s1)) in
+  let keys k := map lkey (layers (st_at k)) in
+  tree c07_demo /\ wn [] c07_demo /\ no_unwind_b P 100 (start h s1) = true /\
+  c_mode (run P 100 (start h s1)) = MDone (Ok (VTuple [VInt 5; VInt 1])) /\
+  (* the child runs *)
+  (exists q, c_mode (run P 12 (start h s1)) = MRun [1] q) /\
+  keys 12%nat = [([0], 1); ([0], 2); ([1], 1)] /\ var_get 0 (st_at 12%nat) = VInt 30 /\
+  (* the sibling runs while the child is blocked on its batch item *)
+  (exists q, c_mode (run P 21 (start h s1)) = MRun [2] q) /\
+  keys 21%nat = [([0], 1); ([0], 2); ([2], 7); ([2], 3)] /\ var_get 0 (st_at 21%nat) = VInt 40 /\
+  computed [1] (st_at 21%nat) = false /\
+  (* a flush point with open with-blocks in suspended tasks *)
+  c_mode (run P 28 (start h s1)) = MAfterExec /\ computed h (st_at 28%nat) = false /\
+  var_get 0 (st_at 28%nat) = var_get 0 s1 /\
+  var_get 0 (st_at 100%nat) = var_get 0 s1.
+Proof.
+  split; [apply c07_demo_ok|]. split; [apply c07_demo_ok|]. vm_compute.
+  repeat match goal with |- _ /\ _ => split end; try reflexivity; eexists; reflexivity.
+Qed.
